@@ -69,6 +69,18 @@ def gcmDecrypt : List (String × String) := [("#0", "iv"), ("#1", "value"), ("#2
 def gcmEncrypt : List (String × String) := [("#0", "iv"), ("#1", "value"), ("#2", "None"), ("local:cipher", "AESGCM(cek)"), ("local:iv", "reader.read_octet_string()")]
 def keyUnwrap : List (String × String) := [("#0", "kek"), ("#1", "value")]
 def keyWrap : List (String × String) := [("#0", "kek"), ("#1", "value")]
+/-- `compute_l1_key`: the L0 seed from the root key, then the L1 key of index 31 bound to the security descriptor -/
+def l1Seed : List (String × String) :=
+  [("#0", "algorithm"), ("#1", "root_key"), ("#2", "KDS_SERVICE_LABEL"), ("#3", "compute_kdf_context(root_key_id, l0, -1, -1)"), ("#4", "64"), ("calls", "2")]
+def l1Key : List (String × String) :=
+  [("#0", "algorithm"), ("#1", "l0_seed"), ("#2", "KDS_SERVICE_LABEL"), ("#3", "compute_kdf_context(root_key_id, l0, 31, -1) + target_sd"), ("#4", "64"), ("calls", "2")]
+/-- `compute_l2_key`: the L1 walk, the L2 restart from the L1 key, the L2 walk -/
+def l2WalkL1 : List (String × String) :=
+  [("#0", "algorithm"), ("#1", "l1_key"), ("#2", "KDS_SERVICE_LABEL"), ("#3", "compute_kdf_context(rk.root_key_identifier, rk.l0, l1, -1)"), ("#4", "64"), ("calls", "3")]
+def l2Reseed : List (String × String) :=
+  [("#0", "algorithm"), ("#1", "l1_key"), ("#2", "KDS_SERVICE_LABEL"), ("#3", "compute_kdf_context(rk.root_key_identifier, rk.l0, l1, l2)"), ("#4", "64"), ("calls", "3")]
+def l2WalkL2 : List (String × String) :=
+  [("#0", "algorithm"), ("#1", "l2_key"), ("#2", "KDS_SERVICE_LABEL"), ("#3", "compute_kdf_context(rk.root_key_identifier, rk.l0, l1, l2)"), ("#4", "64"), ("calls", "3")]
 end CryptoCalls
 
 end DpapiNg
